@@ -435,9 +435,64 @@ def rule_merge_split(chk, prog):
         (r2.bad if bad else r2.ok)(ns + "::Block::split", fs.where(), bad or "%d paths" % n_eval)
 
 
+def rule_satisfy_loop(chk, prog):
+    from ..rules.guards import path_condition, atoms, entails, show
+    r = chk.rule("SATISFY-LOOP", "IncSolver::satisfy main loop (both copies): a constraint v taken by mostViolated() is, before the next "
+                 "iteration, merged across (merge(.., v)), put back on the inactive list, or flagged unsatisfiable -- never silently dropped; "
+                 "`unsatisfiable = true` is stored only (a) under isActiveDirectedPathBetween(v->right, v->left) [a cycle of active "
+                 "constraints], (b) when splitBetween found no split constraint, (c) in the UnsatisfiableException handler", floor=2)
+    for ns in ("vpsc", "Avoid"):
+        fn = prog.fn(ns + "::IncSolver::satisfy")
+        g = CFG(fn)
+        bad = None
+        loop = None
+        for n in fn.nodes():
+            if n.get("k") == "WhileStmt" and any(x.get("cname", "").endswith("IncSolver::mostViolated") for x in walk(n["cond"])):
+                loop = n
+        if loop is None:
+            raise AnalysisBroken("%s::IncSolver::satisfy: main loop not found" % ns)
+        handled = []
+        flags = []
+        for lhs, node, op in writes(fn):
+            fq, elem, mn = written_field(lhs)
+            if fq and fq.endswith("::Constraint::unsatisfiable") and literal_value(node["ch"][1]) == "true" and norm(strip(lhs)["ch"][0]) == "v":
+                flags.append(node)
+                handled.append(node["id"])
+        for c in calls(fn):
+            cn = c.get("cname", "")
+            if cn.endswith("::Block::merge") and any(norm(a) == "v" for a in call_args(c)):
+                handled.append(c["id"])
+            if cn.endswith("::push_back") and norm(call_object(c)) == "inactive" and norm(call_args(c)[0]) == "v":
+                handled.append(c["id"])
+        w = g.iteration_can_skip(loop, handled)
+        if w is not None:
+            bad = "a constraint returned by mostViolated() can be dropped (neither merged, re-queued nor flagged): %s" % g.describe(w)
+        # conditions of the flag stores
+        seen = set()
+        for f_ in flags:
+            pc = path_condition(fn, f_, inline=False)
+            ats = atoms(pc)
+            catch = any(a.get("k") == "CXXCatchStmt" for a in fn.ancestors(f_))
+            cyc = [a for a in ats if a.replace(" ", "") == "lb.isActiveDirectedPathBetween(v.right,v.left)"]
+            nosplit = [a for a in ats if a.replace(" ", "") in ("(splitConstraint!=nullptr)", "(splitConstraint!=__null)")]
+            if catch:
+                seen.add("catch")
+            elif cyc and entails(pc, ("atom", cyc[0])):
+                seen.add("cycle")
+            elif nosplit and entails(pc, ("not", ("atom", nosplit[0]))):
+                seen.add("nosplit")
+            else:
+                bad = bad or "a constraint is flagged unsatisfiable under %s, which is none of the three legitimate situations" % show(pc)[:220]
+        if seen != {"catch", "cycle", "nosplit"}:
+            bad = bad or "flagging situations found: %s (expected cycle, no split constraint, exception handler)" % sorted(seen)
+        r.count(len(flags) + 1)
+        (r.bad if bad else r.ok)(ns + "::IncSolver::satisfy", fn.where(), bad or "%d flag stores, %d handling sites" % (len(flags), len(handled)))
+
+
 def run(chk):
     prog = chk.load()
     rule_verify_before_publish(chk, prog)
+    rule_satisfy_loop(chk, prog)
     rule_merge_split(chk, prog)
     rule_solve_uses_satisfy(chk, prog)
     rule_slack_form(chk, prog)
@@ -446,3 +501,7 @@ def run(chk):
                  "counterpart after alpha-renaming, dropping assertions/casts and unifying the heap ADT (tables/siblings.json lists the "
                  "deliberate differences)", floor=60)
     vpsc_siblings.check(r, prog, sample=chk.sample)
+    from ..rules import mirrors
+    r = chk.rule("MIRROR", "left/right and in/out twins inside each solver copy (canFollowLeft/Right, mergeIn/Out, deleteMinIn/OutConstraint, "
+                 "setUpIn/OutConstraints) stay exact mirror images (tables/mirrors.json)", floor=8)
+    mirrors.check(r, prog, ["vpsc::Block::", "Avoid::Block::"])
